@@ -14,7 +14,7 @@ import (
 )
 
 // evidence alphabet
-var c11Tokens = []string{"assertTrue", "assertEquals-ab", "assertEquals-aa", "println", "printf", "sleep", "helper-asserts", "helper-plain", "verify", "new", "plain-aa", "print", "thread-yield", "own-sleep", "err-println"}
+var c11Tokens = []string{"assertTrue", "assertEquals-ab", "assertEquals-aa", "println", "printf", "sleep", "helper-asserts", "helper-plain", "verify", "new", "plain-aa", "print", "thread-yield", "own-sleep", "err-println", "assert-on-creation"}
 
 type c11Want struct {
 	Type     string
@@ -60,6 +60,8 @@ func c11Body(tokens []string) ([]jg.Stmt, map[int]*jg.Site) {
 			body = append(body, jg.St(jg.T("verify(mock);")))
 		case "new":
 			body = append(body, jg.St(jg.T("new Foo();")))
+		case "assert-on-creation": // an assertion whose argument is a creation: the creation is the last thing recorded
+			body = append(body, jg.St(jg.T("assertNotNull(new Foo());")))
 		case "plain-aa":
 			body = append(body, jg.St(jg.T("compute(a, a);")))
 		case "thread-yield": // a call on Thread that is not sleep: plain call, no evidence
@@ -176,6 +178,9 @@ func c11Expected(file string, isTestFile bool, methods []*c11Method) []*c11Want 
 			case "verify":
 				asserts++
 				count["verify"]++
+			case "assert-on-creation":
+				asserts++
+				count["assertNotNull"]++
 			}
 		}
 		switch {
@@ -196,7 +201,8 @@ func c11Expected(file string, isTestFile bool, methods []*c11Method) []*c11Want 
 		}
 		if dup {
 			w = append(w, &c11Want{Type: "DuplicateAssertTest", File: file, Required: true, Why: name + " calls one assertion method at least 5 times"})
-		} else if helperAsserts >= 5 {
+		} else if helperAsserts > 0 && helperAsserts+count["assertNotNull"] >= 5 {
+			// the helper's assertion is assertNotNull: direct calls of it and calls through the helper add up
 			w = append(w, &c11Want{Type: "DuplicateAssertTest", File: file, Why: "assertion reached 5 times through a helper"})
 		}
 	}
@@ -408,7 +414,7 @@ func init() {
 	engine.Register(&engine.Spec{
 		ID:    "C11",
 		Title: "Test-smell findings are exactly those evidenced in the test sources",
-		Rule: "X1: (a) full product of evidence sequences of length <=4 (quick) / <=5 (thorough), and all sequences of length <=7 within 2/3 deviations from the default token, over 15 evidence tokens (assertTrue, assertEquals(a,b), assertEquals(a,a), println, printf, print, Thread.sleep, helper that asserts, helper that does not, verify, new, non-assert call with identical arguments) in one @Test method; " +
+		Rule: "X1: (a) full product of evidence sequences of length <=4 (quick) / <=5 (thorough), and all sequences of length <=7 within 2/3 deviations from the default token, over 16 evidence tokens (assertTrue, assertNotNull(new Foo()), assertEquals(a,b), assertEquals(a,a), println, printf, print, Thread.sleep, helper that asserts, helper that does not, verify, new, non-assert call with identical arguments) in one @Test method; " +
 			"(b) deviation-bounded trees of 1..2 classes (location: *Test.java, *Tests.java, src/test/java, production) x 1..3 methods x annotation combination (@Test, @Ignore, both in either order, none, @Before) x bodies x assertion multiplicity 4/5/6 x 12 layouts. " +
 			"Non-trivial = at least one finding is required. Distinct = distinct source trees.",
 		Assumptions: []string{
